@@ -66,9 +66,12 @@ def step_case(draw, tier, shard=0, nshards=1):
     ham = draw(gens.hamiltonian(norb, spin_dependent=(not restricted) and draw(st.booleans()), nchol=nchol, chol_kinds=("generic", "generic", "generic", "generic", "diagonal", "zero")))
     r = draw(gens.real((2, norb, norb)))
     rdm1 = (r + r.transpose(0, 2, 1)) / 2 + np.stack([np.eye(norb) * 0.5] * 2)
+    probes = draw(gens.real((8, nchol), -1.0, 1.0))
+    probes = np.sign(probes + 1e-12) * (5.0 + 10.0 * np.abs(probes))
     return {
+        "probes": probes,
         "kind": kind, "norb": norb, "nelec": list(nelec), "params": params, "walker": w, "restricted": restricted, "ham": ham,
-        "rdm1": rdm1, "e_shift": draw(st.sampled_from([0.0, 0.37, -2.5])), "w0": draw(st.sampled_from([1.0, 1.0, 0.02, 40.0, 99.0])),
+        "rdm1": rdm1, "e_shift": draw(st.sampled_from([0.0, 0.37, -2.5, 70.0, -190.0, 130.0])), "w0": draw(st.sampled_from([1.0, 1.0, 0.02, 40.0, 99.0])),
     }
 
 
@@ -107,6 +110,10 @@ def step_body(ctx, case):
     phi = s.phi
     nq = 12 if nchol <= 2 else 10
     x, wq = quad.nodes_weights(nchol, nq)
+    # probe rows with large field values (weight 0 in the quadrature): they drive |I| cos(theta) across both edges of the window
+    pr = np.asarray(case.get("probes", np.zeros((0, nchol))), float).reshape(-1, nchol) if "probes" in case else np.zeros((0, nchol))
+    x = np.concatenate([x, pr], axis=0)
+    wq = np.concatenate([wq, np.zeros(len(pr))])
     nw = len(x)
     comm = max((np.linalg.norm(chol[a] @ chol[b] - chol[b] @ chol[a]) for a in range(nchol) for b in range(nchol)), default=0.0)
     trial0, wd0, hd0, _, _, _ = _setup_lib(case, 0.01, 1)
@@ -174,6 +181,15 @@ def step_body(ctx, case):
             ctx.count("batch-has-negative-cos-theta")
         if np.any((w_ref == 0) & (np.cos(theta) > 0)):
             ctx.count("batch-has-clipped-factor")
+        fr = np.abs(I) * np.cos(theta)
+        if np.any(fr > 100.0):
+            ctx.count("batch-has-factor-above-100")
+        if np.any((fr > 10.0) & (fr <= 100.0)):
+            ctx.count("batch-has-factor-in-(10,100]")
+        if np.any((fr > 0) & (fr < 1e-3)):
+            ctx.count("batch-has-factor-below-1e-3")
+        if np.any((fr * float(case["w0"]) > 100.0) & (fr <= 100.0)):
+            ctx.count("batch-has-product-above-100")
         # ---- oracle 1: field average of I(x) |phi'>/ovlp' ------------------------------------------------
         acc = np.zeros(F.dim, complex)
         for k in range(nw):
